@@ -121,6 +121,20 @@ def wrap(x):
     return x
 
 
+def tag(r):
+    """while an engine is active every ndarray handed back to the code under test carries the SymArray type, so that
+    symbolic masks / index arrays can index it (plain ndarrays reject object-dtype indices)"""
+    if core.ENGINE is None:
+        return r
+    if type(r) is _nd:
+        return _nd.view(r, SymArray)
+    if isinstance(r, tuple):
+        return tuple(tag(i) for i in r)
+    if isinstance(r, list):
+        return [tag(i) for i in r]
+    return r
+
+
 def symarray(x):
     return _nd.view(_np.asarray(base(x) if isinstance(x, _nd) else x, dtype=object), SymArray)
 
@@ -316,8 +330,6 @@ def _tidy(r):
     """object arrays of only python bools -> bool arrays (so that masks index natively)"""
     if isinstance(r, _nd) and rd(r) == object and r.size and all(isinstance(v, (bool, _np.bool_)) for v in base(r).reshape(-1)):
         return base(r).astype(bool)
-    if isinstance(r, _nd) and rd(r) == object and r.size == 0:
-        return base(r)
     return r
 
 
@@ -331,7 +343,7 @@ def sym_array_ufunc(self, ufunc, method, *inputs, out=None, **kw):
             kw["out"] = tuple(base(o) for o in out)
             getattr(ufunc, method)(*args, **kw)
             return out[0] if len(out) == 1 else out
-        return getattr(ufunc, method)(*args, **kw)
+        return tag(getattr(ufunc, method)(*args, **kw))
     name = ufunc.__name__
     if method == "__call__" and name in _UFUNCS:
         kw.pop("dtype", None)
@@ -494,7 +506,13 @@ class SymArray(_nd):
 
     def __setitem__(self, idx, val):
         if rd(self) != object and has_sym(val):
-            raise NotEncodable("symbolic value stored into a concrete %s array" % rd(self))
+            k = rd(self).kind
+            if k == "b":
+                val = concretize_bools(val) if isinstance(val, _nd) else bool(val)
+            elif k in "iu":
+                val = concretize_ints(val) if isinstance(val, _nd) else int(val)
+            else:
+                raise NotEncodable("symbolic value stored into a concrete %s array" % rd(self))
         _nd.__setitem__(self, _conc_index(idx), val)
 
     def view(self, *a, **k):
@@ -503,7 +521,7 @@ class SymArray(_nd):
         if a and isinstance(a[0], type) and issubclass(a[0], _nd):
             return _nd.view(self, *a, **k)
         if (a or k) and rd(self) == object:
-            raise NotEncodable("dtype view of symbolic array")
+            return sym_dtype_view(self, a[0] if a else k.get("dtype"))
         return _nd.view(self, *a, **k)
 
     def astype(self, dtype, *a, **k):
@@ -663,6 +681,35 @@ def _sym_astype(a, dtype):
     raise NotEncodable("astype %s" % dt)
 
 
+def sym_dtype_view(a, dtype):
+    """np.void / structured views of int64 rows become RowKey objects, and back"""
+    flat = base(a)
+    try:
+        dt = _np.dtype(dtype)
+    except TypeError:
+        raise NotEncodable("dtype view of symbolic array")
+    if flat.size == 0:
+        return tag(_np.zeros(0, dtype=dt))
+    first = flat.reshape(-1)[0] if flat.size else None
+    if isinstance(first, core.RowKey):
+        if dt.kind in "iu" and dt.itemsize == 8:
+            rows = [list(k.row) for k in flat.reshape(-1)]
+            out = _np.empty((len(rows), len(rows[0]) if rows else 0), dtype=object)
+            for i, r in enumerate(rows):
+                out[i] = r
+            return set_sd(wrap(out.reshape(-1)), dt)
+        raise NotEncodable("view of row keys as %s" % dt)
+    if dt.kind == "V":
+        cols = dt.itemsize // 8
+        if flat.ndim != 2 or flat.shape[1] != cols:
+            raise NotEncodable("void view of shape %r as %s" % (flat.shape, dt))
+        out = _np.empty((flat.shape[0], 1), dtype=object)
+        for i in range(flat.shape[0]):
+            out[i, 0] = core.RowKey(flat[i])
+        return wrap(out)
+    raise NotEncodable("dtype view of symbolic array as %s" % dt)
+
+
 def sym_round_array(a, decimals=0):
     k = Fraction(10) ** int(decimals)
 
@@ -775,7 +822,7 @@ def sym_array_function(func, types_, args, kwargs):
     key = ("linalg." + name) if "linalg" in mod else name
     anysym = _any_sym_args(args) or _any_sym_args(tuple(kwargs.values()))
     if anysym and key in _FUNCS:
-        return _FUNCS[key](*args, **kwargs)
+        return tag(_FUNCS[key](*args, **kwargs))
     # default: run numpy's own implementation on base-class views, re-wrap the result
     impl = getattr(func, "_implementation", None)
     if anysym and impl is not None and key not in _NATIVE_OK:
@@ -837,7 +884,7 @@ def _first_sd(args):
 def _rewrap(r, sd=None):
     if isinstance(r, _nd):
         if rd(r) != object:
-            return r
+            return tag(r)
         r = _tidy(wrap(r))
         if sd is not None and isinstance(r, _nd) and rd(r) == object and sd_of(r) is None:
             set_sd(r, sd)
@@ -1344,7 +1391,7 @@ class NPProxy(types.ModuleType):
                 @functools.wraps(v)
                 def dispatch(*a, **kw):
                     if _any_sym_args(a) or _any_sym_args(tuple(kw.values())):
-                        return h(*a, **kw)
+                        return tag(h(*a, **kw))
                     return v(*a, **kw)
 
                 self.__dict__[k] = dispatch
@@ -1370,7 +1417,7 @@ class NPProxy(types.ModuleType):
             if dtype is not None and _np.dtype(dtype) != object:
                 return sym_astype(r, dtype)
             return r
-        return _np.array(base(a) if isinstance(a, SymArray) else a, dtype=dtype, copy=copy, order=order, subok=subok, ndmin=ndmin, **kw)
+        return tag(_np.array(base(a) if isinstance(a, SymArray) else a, dtype=dtype, copy=copy, order=order, subok=subok, ndmin=ndmin, **kw))
 
     def asarray(self, a, dtype=None, order=None, **kw):
         if has_sym(a):
@@ -1381,7 +1428,7 @@ class NPProxy(types.ModuleType):
             if dtype is not None and _np.dtype(dtype) != object:
                 return sym_astype(r, dtype)
             return r
-        return _np.asarray(a, dtype=dtype, order=order, **kw)
+        return tag(_np.asarray(a, dtype=dtype, order=order, **kw))
 
     def asanyarray(self, a, dtype=None, order=None, **kw):
         if has_sym(a):
@@ -1391,13 +1438,13 @@ class NPProxy(types.ModuleType):
                     return r
                 return a
             return self.asarray(a, dtype=dtype)
-        return _np.asanyarray(a, dtype=dtype, order=order, **kw)
+        return tag(_np.asanyarray(a, dtype=dtype, order=order, **kw))
 
     def ascontiguousarray(self, a, dtype=None, **kw):
         if has_sym(a):
             r = self.asarray(a, dtype=dtype)
             return wrap(_np.ascontiguousarray(base(r))) if rd(r) == object else r
-        return _np.ascontiguousarray(a, dtype=dtype, **kw)
+        return tag(_np.ascontiguousarray(a, dtype=dtype, **kw))
 
     def require(self, a, dtype=None, requirements=None, **kw):
         if has_sym(a):
@@ -1413,20 +1460,32 @@ class NPProxy(types.ModuleType):
             dt = None
         return set_sd(wrap(r), dt)
 
+    @staticmethod
+    def _int_like(dtype):
+        try:
+            return _np.dtype(dtype).kind in "iu"
+        except TypeError:
+            return False
+
+    @staticmethod
+    def _typed(r):
+        """concrete arrays created by the code under test get the SymArray type so that symbolic masks / values can index them"""
+        return _nd.view(r, SymArray) if core.ENGINE is not None and type(r) is _nd else r
+
     def zeros(self, shape, dtype=float, order="C", **kw):
-        if core.ENGINE is not None and self._float_like(dtype):
+        if core.ENGINE is not None and (self._float_like(dtype) or (self._int_like(dtype) and core.ENGINE.opts.get("int_zeros_object"))):
             return self._filled(shape, 0, dtype)
-        return _np.zeros(shape, dtype=dtype, order=order, **kw)
+        return self._typed(_np.zeros(shape, dtype=dtype, order=order, **kw))
 
     def ones(self, shape, dtype=float, order="C", **kw):
         if core.ENGINE is not None and self._float_like(dtype):
             return self._filled(shape, 1, dtype)
-        return _np.ones(shape, dtype=dtype, order=order, **kw)
+        return self._typed(_np.ones(shape, dtype=dtype, order=order, **kw))
 
     def empty(self, shape, dtype=float, order="C", **kw):
         if core.ENGINE is not None and self._float_like(dtype):
             return self._filled(shape, 0, dtype)
-        return _np.empty(shape, dtype=dtype, order=order, **kw)
+        return self._typed(_np.zeros(shape, dtype=dtype, order=order, **kw))
 
     def full(self, shape, fill_value, dtype=None, **kw):
         if is_sym(fill_value) or (core.ENGINE is not None and (isinstance(fill_value, float) or (dtype is not None and self._float_like(dtype)))):
@@ -1436,14 +1495,18 @@ class NPProxy(types.ModuleType):
     def zeros_like(self, a, dtype=None, **kw):
         a = _np.asanyarray(a)
         if core.ENGINE is not None and ((dtype is None and rd(a).kind in "fO") or (dtype is not None and self._float_like(dtype))):
-            return self._filled(a.shape, 0, dtype)
-        return _np.zeros_like(base(a), dtype=dtype, **kw)
+            return self._filled(a.shape, 0, dtype if dtype is not None else (sd_of(a) if rd(a) == object else None))
+        kw.pop("subok", None)
+        if rd(a) == object and dtype is None:
+            return self._filled(a.shape, 0, sd_of(a))
+        return self._typed(_np.zeros_like(base(a), dtype=dtype, **kw))
 
     def ones_like(self, a, dtype=None, **kw):
         a = _np.asanyarray(a)
         if core.ENGINE is not None and ((dtype is None and rd(a).kind in "fO") or (dtype is not None and self._float_like(dtype))):
             return self._filled(a.shape, 1, dtype)
-        return _np.ones_like(base(a), dtype=dtype, **kw)
+        kw.pop("subok", None)
+        return self._typed(_np.ones_like(base(a), dtype=dtype, **kw))
 
     def empty_like(self, a, dtype=None, **kw):
         return self.zeros_like(a, dtype=dtype)
@@ -1468,7 +1531,7 @@ class NPProxy(types.ModuleType):
             a = [int(x) if isinstance(x, Sym) else x for x in a]
         dtype = kw.pop("dtype", None)
         r = _np.arange(*a, **kw) if dtype is None or self._float_like(dtype) else _np.arange(*a, dtype=dtype, **kw)
-        return r
+        return tag(r)
 
     def isscalar(self, x):
         return is_sym(x) or _np.isscalar(x)
